@@ -2172,6 +2172,14 @@ start_type (GMarkupParseContext *context,
 
           if (typenode->has_size && ctx->current_typed->type == G_IR_NODE_FIELD)
             typenode->is_pointer = FALSE;
+          else if (!typenode->has_length && ctx->current_typed->type == G_IR_NODE_FIELD)
+            {
+              /* `T data[];`: a flexible array member is not a pointer; its
+               * size (hence the layout of the structure) is unknown */
+              const char *actype = find_attribute ("c:type", attribute_names, attribute_values);
+              if (actype == NULL || !g_str_has_suffix (actype, "*"))
+                typenode->is_pointer = FALSE;
+            }
         } else {
           typenode->zero_terminated = FALSE;
           typenode->has_length = FALSE;
